@@ -138,24 +138,24 @@ Proof.
   assert (G : pm_good pm provs) by (eapply pass2_good; eauto).
   assert (PMOK : forall t p0 g0, pm_of pm t = Some (p0, g0) -> g0 < nprovides provs p0) by (intros t p0 g0 H0; apply (G t p0 g0 H0)).
   (* BFS invariant at the end *)
-  destruct (Bfs.loop_inv req (pm_of pm) (nprovides provs) PMOK _ b0 [] b vis (Final1.b0_inv req (nprovides provs) pi) L) as (I & Q).
+  destruct (Bfs.loop_inv req (pm_of pm) (nprovides provs) PMOK _ b0 [] b vis (Final1.b0_inv req (pm_of pm) (nprovides provs) pi) L) as (I & Q).
   destruct (loop_prefix req (pm_of pm) _ b0 [] b vis L) as (ext & Eext). simpl in Eext.
   set (g := {| ub := b; uprovs := provs; uret := gi |}).
   assert (Hnn : nn g = length (Bfs.nodes b)) by reflexivity.
-  assert (OS : forall n c i, In (c, i) (uouts g n) <-> c < nn g /\ i < unreq g c /\ usrc g c i = n) by (intros; apply (Bfs.outs_src req (nprovides provs) b vis I)).
-  assert (SL : forall c i, c < nn g -> i < unreq g c -> usrc g c i < nn g) by (intros; apply (Bfs.src_lt req (nprovides provs) b vis I); auto).
+  assert (OS : forall n c i, In (c, i) (uouts g n) <-> c < nn g /\ i < unreq g c /\ usrc g c i = n) by (intros; apply (Bfs.outs_src req (pm_of pm) (nprovides provs) b vis I)).
+  assert (SL : forall c i, c < nn g -> i < unreq g c -> usrc g c i < nn g) by (intros; apply (Bfs.src_lt req (pm_of pm) (nprovides provs) b vis I); auto).
   assert (AL : forall n, uisarg g n = true -> n < nn g).
   { intros n Hn. unfold uisarg in Hn. simpl in Hn. destruct (nth_error (Bfs.nodes b) n) eqn:E; [|discriminate]. rewrite Hnn. apply nth_error_Some. congruence. }
   assert (AC : forall c i, c < nn g -> i < unreq g c -> posn (usrc g c i) fin' < posn c fin').
   { intros c i Hc Hi. apply (Dfs.acyclic_rank _ _ _ _ _ D); [apply SL; auto|]. apply in_map_iff. exists (c, i). split; auto. apply OS. auto. }
   apply (Assembly.emitted_wfl (nn g) (uouts g) (unreq g) (usrc g) (usidx g) (unprov g) (uisarg g) (uisasync g) (ufall g) (unp g) (reterr_of g)) with (rank0 := fun x => posn x fin').
   - exact OS.
-  - intros n. apply (Bfs.outs_nodup req (nprovides provs) b vis I).
+  - intros n. apply (Bfs.outs_nodup req (pm_of pm) (nprovides provs) b vis I).
   - exact SL.
   - intros c i Hc Hi Ha. unfold uisarg in Ha. simpl in Ha.
     assert (Hs : usrc g c i < length (Bfs.nodes b)) by (apply SL; auto).
     destruct (nth_error (Bfs.nodes b) (usrc g c i)) as [[t|pj]|] eqn:E; [discriminate| |apply nth_error_None in E; exfalso; exact (Nat.lt_irrefl _ (Nat.lt_le_trans _ _ _ Hs E))].
-    pose proof (Bfs.sidx_lt req (nprovides provs) b vis I c i pj Hc Hi E) as S1.
+    pose proof (Bfs.sidx_lt req (pm_of pm) (nprovides provs) b vis I c i pj Hc Hi E) as S1.
     assert (U : unprov g (usrc g c i) = nprovides provs pj).
     { unfold unprov, uprov, nprovides. change (Bfs.nodes (GenU.b g)) with (Bfs.nodes b). rewrite E. reflexivity. }
     rewrite U. exact S1.
